@@ -159,6 +159,49 @@ class ConfigMachine(RuleBasedStateMachine):
             return 200, [], F.profile_response({"BANKMSGSET": rec["url"], "CREDITCARDMSGSET": rec["url"], "INVSTMTMSGSET": rec["url"]}, F.dt_tag(2020), code=0)
         return 200, [], b"OFXHEADER:100\r\n\r\n<OFX>fixture</OFX>"
 
+    def check_requests(self, argv, r, recs):
+        """"In effect" means in the request: every OFX request of the run carries the effective settings (the merged
+        settings are only the library's own account of them)."""
+        from pbt.core import reqmodel as Q
+
+        eff = r.effective
+        for rec in recs:
+            if urllib.parse.urlsplit(rec["url"]).hostname == "www.ofxhome.com" or not rec.get("data"):
+                continue
+            try:
+                story = Q.story_from_bytes(rec["data"])
+            except Exception as e:
+                self.fail("request-unreadable", f"{argv}: {e!r}")
+                return
+            so = story["signon"]
+            want = {
+                "appid": eff["appid"] if eff["appid"] not in NULLS else "QWIN",
+                "appver": str(eff["appver"]) if eff["appver"] not in NULLS else "2700",
+                "language": eff["language"] if eff["language"] not in NULLS else "ENG",
+                "org": eff["org"] if eff["org"] not in NULLS else None,
+                "fid": eff["fid"] if eff["fid"] not in NULLS else None,
+            }
+            if want["org"] is None:
+                want.pop("fid")  # <FI> needs an ORG; what a lone FID does is not the point here
+            for k, w in want.items():
+                if so.get(k) != w and "clientuid" != k:
+                    self.fail(f"effective-setting-not-used-in-request/{k}", f"{argv}: effective {k}={eff[k]!r}, the request to {rec['url']} has {so.get(k)!r}")
+                    return
+            if story["version"] != int(eff["version"]):
+                self.fail("effective-setting-not-used-in-request/version", f"{argv}: effective version={eff['version']!r}, request header says {story['version']}")
+                return
+            if eff["url"] not in NULLS and rec["url"] != eff["url"]:
+                # the fake profile advertises the URL it was asked at, so every hop goes to the effective URL
+                self.fail("effective-setting-not-used-in-request/url", f"{argv}: effective url={eff['url']!r}, request sent to {rec['url']!r}")
+                return
+            if eff["clientuid"] not in NULLS and int(eff["version"]) >= 103 and so.get("clientuid") != eff["clientuid"]:
+                self.fail("effective-setting-not-used-in-request/clientuid", f"{argv}: effective clientuid={eff['clientuid']!r}, request has {so.get('clientuid')!r}")
+                return
+            if not story["requests"]["prof"] and eff["user"] not in NULLS and so.get("userid") != eff["user"]:
+                self.fail("effective-setting-not-used-in-request/user", f"{argv}: effective user={eff['user']!r}, request signs on as {so.get('userid')!r}")
+                return
+        self.flags.add("requests of the run compared with the effective settings")
+
     def fail(self, key, detail):
         if STATS is not None:
             STATS.fail(key, list(self.history), f"run {self.history[-1]}: {detail}"[:1500])
@@ -337,7 +380,10 @@ class ConfigMachine(RuleBasedStateMachine):
                 if i is not None:
                     argv = [argv[0]] + rest[: i + 2] + [nick] + rest[i + 2 :]
                     self.flags.add("nickname right after an account option")
+        net_before = len(self.net.log)
         r = G.run(self.root, argv, handler=(mode != "merge") and have_url)
+        if r.merged is not None and mode != "merge" and have_url and r.raised is None:
+            self.check_requests(argv, r, self.net.log[net_before:])
         if r.merged is None:
             if have_url or mode == "dry-write":
                 self.fail("merge-raises", f"{argv}: {r.raised!r} exited={r.exited}")
